@@ -44,6 +44,24 @@ CHECKS = {
         "note": "2-D CF grids without stored bounds: validity only (the statements define no construction). Bounds/geometry asserted only when no invalid cells or stray mesh nodes exist.",
         "design": "5/C06",
     },
+    "C07": {
+        "technique": "property-based testing with brute-force reference masks; exhaustive enumeration of all boolean arrays up to 4x4 for the mask primitives; metamorphic monotonicity",
+        "text": "make_clip_mask on generated datasets of every convention with clip geometries built from the case's own cells (own polygon, boxes, a box inside one cell, corner-only contact, border-hugging strips, points, lines, multi-part unions) and buffers 0..3 is compared with a brute-force base set grown by a brute-force Chebyshev dilation (grids), the incidence definition (left/back/node masks) or node-sharing rings (meshes), with contiguous renumbering in original order for faces, edges and nodes; growing the buffer or the geometry must never unmark. blur_mask / smear_mask / c_mask_from_centres are enumerated over every boolean array up to 4x4 (exhaustive in the thorough tier), buffer_faces / mask_from_face_indexes over every face subset of generated meshes with <= 8 faces.",
+        "note": "Base-set membership uses shapely's intersects on each polygon (no tree). Supplied face_edge / edge_face tables imply a supplied edge_node table (UGRID conventions).",
+        "design": "5/C07",
+    },
+    "C08": {
+        "technique": "property-based testing: every value of the clipped dataset compared with a reference computed from the spec and a reference selection; three application routes incl. saved-and-reloaded mask applied to a second dataset",
+        "text": "For generated datasets of every convention with float / int-without-fill / int-with-_FillValue / int-with-missing_value variables on every grid kind (and none), spatial dimensions in any position, raw / CF-decoded / from netCDF, meshes with any subset of optional tables and coordinates as variables or xarray coordinates: the result of clip / make+apply / saved mask applied to a second dataset with different data is loaded fully and every element is compared with the expectation (selected -> original value, unselected -> missing where representable else original, crop window = bounding window of the reference mask, mesh rows = kept elements in order), plus non-spatial variables and attributes.",
+        "note": "Reference selection comes from the C07 oracles, not from emsarray's mask. Lazily loaded results are evaluated with a single-threaded dask scheduler (emsarray opens them with lock=False).",
+        "design": "5/C08",
+    },
+    "C09": {
+        "technique": "property-based testing: convention re-detection, save/reopen round trip, polygon equality under the reference position mapping, mesh tables vs reference mesh model under reference renumbering, netCDF4 inspection of on-disk dtype / start_index / index range",
+        "text": "Same case space as C08. The clipped dataset must be detected as the input's convention, be savable through ems.to_netcdf and reopen as that convention with the same polygons; where geometry is stored explicitly every selected cell keeps exactly its polygon and no new polygon appears; for meshes every supplied connectivity table must survive, equal the reference table pushed through the reference renumbering, stay inside the new index range, and keep start_index and integer type on disk. select_variables on random subsets must keep every geometry variable and all polygons.",
+        "note": "Geometry equality only where stored explicitly (bounds / nodes). A CF 1-D grid without bounds cropped to a one-cell-wide window has no derivable geometry; only detection is asserted there.",
+        "design": "5/C09",
+    },
 }
 
 NOT_BUILT_REASON = "check not built yet in this session (work in progress; planned in DESIGN.md section 5)"
